@@ -262,6 +262,7 @@ static J gen_c13 (uint64_t seed, uint64_t idx)
 	{	J c = mkop ("setchunk") ;
 		std::string id = (wild_ids && g.rng.chance (0.5)) ? wild [g.rng.below (11)] : plain [g.rng.below (8)] ;
 		int64_t len = g.rng.pick<int64_t> ({ 0, 1, 2, 3, 4, 5, 7, 17, 100, 255, 256, 257, 1000, 4095, 4096, 4097, 20000, 65535 }) ;
+		if (big && g.rng.chance (0.4)) len = g.rng.pick<int64_t> ({ 9000, 11000, 20000, 25000, 27000, 30000, 32000, 40000, 50000 }) ;
 		if (!big && len > 20000) len = 20000 ;
 		if (len + 16 > budget) len = budget > 32 ? g.rng.range (0, 16) : 0 ;
 		if (budget < 16) break ;
@@ -326,7 +327,9 @@ static Verdict check_c13 (const J &plan)
 		stored.push_back (Ck { id, x.geti ("len"), op.geti ("stream") }) ;
 	}
 	int64_t total = 0, biggest = 0 ; for (auto &c : stored) { total += c.len + 16 ; biggest = std::max (biggest, c.len) ; }
-	bool bigh = total > 45000 || biggest > 30000 ;
+	// the limits of the pinned tree: the header buffer doubles (..., 32768, 65536) and is refused beyond 100 KiB, and a growth request is
+	// twice the payload: one payload above 51200 bytes, or a header beyond 64 KiB in all, cannot be written
+	bool bigh = total > 64000 || biggest > 51000 ;
 	if (!v.findings.empty ()) { for (auto &f : v.findings) f.sig += std::string (wild ? "+odd_ids" : "") + (bigh ? "+big_header" : "") ; return v ; }
 	std::string extra = std::string (wild ? "+odd_ids" : "") + (bigh ? "+big_header" : "") ;
 	for (auto &o : r.obs)
